@@ -260,7 +260,14 @@ def run(facts, res):
     dst = facts.body("datastorage::DataStorage::stage")
     drp = facts.body("datastorage::DataStorage::replay_stage")
     if dst is not None and drp is not None:
+        from ..flows import flow_of
         w_ok = any(t.callee is not None and t.callee.name == "insert" and "serde_json::Map" in t.callee.path for _, t in dst.calls())
+        if not w_ok:
+            # `self.stage.iter().map(..).collect::<Map<_, _>>()`
+            rt_ = du_of(dst).local_term(0, 24)
+            names_ = {callee_name(x) for x in walk(rt_) if x[0] == "call"}
+            w_ok = "collect" in names_ and any(x[0] == "field" and x[2] == "stage" for x in walk(rt_)) and \
+                not (names_ & {"filter", "take", "skip", "step_by", "filter_map", "take_while", "skip_while"})
         r_ins = [(bi, t) for bi, t in drp.calls() if t.callee is not None and t.callee.name == "insert" and field_path(arg_term(drp, t, 0))[0][:1] == ["stage"]]
         r_ok = bool(r_ins)
         for bi, t in r_ins:
